@@ -33,6 +33,10 @@
 (*                       async-lsp 0.0.5: while waiting for a permit the   *)
 (*                       main loop does not poll finished request futures  *)
 (*   PreFixF9            TRUE = the tree before the F9 repairs             *)
+(*   PreFixWDel          TRUE = the tree before the F44 repair: a watched- *)
+(*                       file deletion only queues its change, the         *)
+(*                       analysis keeps the deleted file until the next    *)
+(*                       change is applied                                 *)
 (*   ThirdPartyFatal     messages on which async-lsp's own layers end the  *)
 (*                       loop (outside the grammar of C15)                 *)
 (*                                                                         *)
@@ -49,7 +53,7 @@ CONSTANTS Docs,          \* document names (strings)
           ReqKinds,      \* subset of {"plain", "conv"}: conv = handler with a second snap.vfs()
           QueryOutcomes, \* subset of {"ok", "err"}
           ReadWithLiveVfs, ConvertWithLiveVfs, CancelledDiagPublishesEmpty, RespawnAllDiags, PublishOnlyLatest,
-          HoldVfsAcrossApply, SnapshotInTask, CancelledAnsweredOk, AnsFree, PollWhileWaiting, PreFixF9, ThirdPartyFatal,
+          HoldVfsAcrossApply, SnapshotInTask, CancelledAnsweredOk, AnsFree, PollWhileWaiting, PreFixF9, PreFixWDel, ThirdPartyFatal,
           Gen,           \* "none" | "bfs" | "sim"   (script generation, seq mode)
           ScriptLen
 
@@ -289,16 +293,19 @@ M_OpenStore ==
           /\ UNCHANGED <<vfsW, cur, alive>>
   /\ UNCHANGED <<cvars, chLeft, dvars, tvars>>
 
-\* DELETED watched file: self.vfs.write().remove_uri(uri) in one statement, no apply
+\* DELETED watched file: vfs.write().remove_uri(uri) (+ the roots recomputed); if a file was removed the guard is dropped and
+\* apply_vfs_change follows, as after a stored text (before the F44 repair - PreFixWDel - the change was only queued)
 M_WatchedDelete ==
   /\ alive /\ mpc = "locked" /\ cur.k = "wdel"
   /\ LET d == cur.d
          rm == ~opened[d] /\ vfsText[d] # Absent
+         apply == rm /\ ~PreFixWDel
      IN /\ vfsText' = IF rm THEN [vfsText EXCEPT ![d] = Absent] ELSE vfsText
         /\ vfsVer' = IF rm THEN [vfsVer EXCEPT ![d] = @ + 1] ELSE vfsVer
         /\ pending' = IF rm THEN pending \cup {d} ELSE pending
-  /\ vfsW' = FALSE /\ mpc' = "idle" /\ cur' = Nil
-  /\ UNCHANGED <<cvars, chLeft, diagTodo, alive, opened, loaded, dvars, tvars>>
+        /\ vfsW' = apply /\ mpc' = (IF apply THEN "stored" ELSE "idle") /\ cur' = (IF apply THEN cur ELSE Nil)
+  /\ diagTodo' = {}
+  /\ UNCHANGED <<cvars, chLeft, alive, opened, loaded, dvars, tvars>>
 
 \* drop(vfs) before apply_vfs_change (hook: DocStoreUpdated is logged right after it)
 M_UnlockVfs ==
@@ -475,7 +482,8 @@ TaskNext(t) == T_Start(t) \/ T_Aborted(t) \/ T_ReadVfs(t) \/ T_QueryStep(t) \/ T
 -----------------------------------------------------------------------------
 (* The client *)
 
-Quiescent == /\ inbox = <<>> /\ mpc = "idle" /\ evq = <<>> /\ retq = <<>> /\ DOMAIN tasks = {} /\ pending \subseteq {d \in Docs : vfsText[d] = Absent}
+Quiescent == /\ inbox = <<>> /\ mpc = "idle" /\ evq = <<>> /\ retq = <<>> /\ DOMAIN tasks = {}
+             /\ (IF PreFixWDel THEN pending \subseteq {d \in Docs : vfsText[d] = Absent} ELSE pending = {})
 
 CU == <<mvars, svars, dvars, tvars>>
 Send(m) == inbox' = Append(inbox, m)
@@ -622,6 +630,9 @@ Converged(d) == /\ vfsText[d] = StripCR(cText[d]) /\ dbText[d] = vfsText[d]
                 /\ published[d].ver = dbVer[d] /\ published[d].c = "ok"
 Convergence == (Conc /\ Quiescent) => \A d \in Docs : (opened[d] /\ cOpen[d]) => Converged(d)
 TextConvergence == (Conc /\ Quiescent) => \A d \in Docs : vfsText[d] = StripCR(cText[d]) /\ dbText[d] = vfsText[d]
+\* whatever the document store holds has been handed to the analysis once the main loop is idle: in particular a file
+\* reported deleted is gone from the analysis too (F44)
+StoreApplied == (alive /\ mpc = "idle") => \A d \in Docs : dbVer[d] = vfsVer[d]
 \* the storage write lock is only taken while no snapshot exists; the document store is free at that point
 LockDiscipline == (mpc = "set" => Snaps = {}) /\ (mpc \in {"cancel", "acquire", "set"} => (vfsW = HoldVfsAcrossApply))
 
